@@ -595,6 +595,9 @@ open Proofs.ConvTools Proofs.Adjoint Synap.ConvTools
 theorem sn_norm_one2 (s : Shape) (hs : s.length = 4) : (Axes.one 2).norm s.length = some [2] := by
   rw [hs]; rfl
 
+theorem sn_normRed_one2 (s : Shape) (hs : s.length = 4) : (Axes.one 2).normRed s.length = some [2] := by
+  rw [hs]; rfl
+
 theorem sn_reduce2 (a b q t : Nat) : reduceIdx [2] false [a, b, q, t] = [a, b, t] := by
   simp [reduceIdx, dropAxes, List.zipIdx]
 
@@ -681,7 +684,7 @@ theorem sn_mean_axis2 (a : NDArray K) (n c kk l : Nat) (ha : a.shape = [n, c, kk
       ∀ bn cc t, bn < n → cc < c → t < l →
         m.get [bn, cc, t] = (∑ q ∈ range kk, a.get [bn, cc, q, t]) / ((kk : Nat) : K) := by
   unfold meanForward Np.sum
-  rw [sn_norm_one2 a.shape (by rw [ha]; rfl)]
+  rw [sn_norm_one2 a.shape (by rw [ha]; rfl), sn_normRed_one2 a.shape (by rw [ha]; rfl)]
   simp only [Option.bind_eq_bind, Option.bind_some, Option.pure_def]
   rw [ha, sn_reduceShape2]
   refine ⟨_, rfl, rfl, Proofs.Calc.map_wf _ _ (ofFn_wf _ _), ?_⟩
@@ -699,12 +702,12 @@ theorem sn_max_axis2 (a : NDArray K) (n c kk l : Nat) (ha : a.shape = [n, c, kk,
       ∀ bn cc t, bn < n → cc < c → t < l →
         (∃ q, q < kk ∧ m.get [bn, cc, t] = a.get [bn, cc, q, t]) ∧
         (∀ q, q < kk → a.get [bn, cc, q, t] ≤ m.get [bn, cc, t]) := by
-  have hax : (match (some 2 : Option Int) with | none => Axes.all | some d => Axes.one d).norm a.shape.length = some [2] :=
-    sn_norm_one2 a.shape (by rw [ha]; rfl)
+  have hax : (match (some 2 : Option Int) with | none => Axes.all | some d => Axes.one d).normRed a.shape.length = some [2] :=
+    sn_normRed_one2 a.shape (by rw [ha]; rfl)
   have hacc : maxForward a (some 2) false = some (ofFn [n, c, l] (fun o => a.get (argExt (fun x y => decide (y < x)) a [2] false o))) := by
     unfold maxForward extForward
     simp only []
-    rw [sn_norm_one2 a.shape (by rw [ha]; rfl)]
+    rw [sn_normRed_one2 a.shape (by rw [ha]; rfl)]
     simp only [Option.bind_eq_bind, Option.bind_some, Option.pure_def]
     rw [ha, sn_reduceShape2]
     have hsz : Shape.size [n, c, kk, l] ≠ 0 := by
